@@ -171,8 +171,8 @@ func c02Run(c c02Case) error {
 	if cell.NRejected > 0 && len(cell.Rejected) > 0 {
 		if cell.All != nil {
 			for _, np := range c.Prefixes {
-				if np >= spg.MaxTrials-1 { // the attempt examined must not be the last permitted one
-					continue
+				if np > 200 && len(cell.All) > 600 {
+					continue // cost
 				}
 				var rej [][]uint32
 				for i := 0; i < np; i++ {
@@ -221,7 +221,7 @@ func c02Gen(t *rapid.T) c02Case {
 		sz *= u
 	}
 	if sz <= 2500 {
-		c.Prefixes = []int{1, rapid.SampledFrom([]int{2, 7, 50, 150, 198}).Draw(t, "prefix")}
+		c.Prefixes = []int{1, rapid.SampledFrom([]int{2, 7, 50, 199, 200, 450}).Draw(t, "prefix")}
 	}
 	return c
 }
